@@ -143,7 +143,7 @@ def main(ctx):
     al2 = [1e-8, 1e-3, 0.4, 0.5] if q else ALPHAS
     for f0, f1 in itertools.product(ALL8, ALL8):
         for cond in ([None, None], [None, 0]):
-            assigns = ["A"] if cond[1] is None else (["A"] if q else ["A", "B"])
+            assigns = ["A"] if cond[1] is None else (["A"] if q else ["A", "B", "C"])
             for a in assigns:
                 cases.append({"fams": [f0, f1], "cond_on": cond, "assign": a, "kinds": kinds, "alphas": al2, "n_points": np2})
     np3 = [4, 20] if q else [3, 4, 7, 36]
@@ -167,6 +167,11 @@ def main(ctx):
                 cases.append({"fams": fams, "cond_on": cond, "assign": "A", "kinds": [kind], "alphas": [1e-3],
                               "n_points": list(range(lo, min(lo + 20, top)))})
     ctx.extra["n_points_sweep_2d"] = [3, top - 1]
+    # small n_points sweep through the n-sphere code (3-D, 4-D)
+    for fams, cond in ((CORE4[:3], [None, 0, 0]), (CORE4, [None, 0, 1, 0])):
+        for kind in kinds:
+            cases.append({"fams": list(fams), "cond_on": cond, "assign": "B", "kinds": [kind], "alphas": [1e-3],
+                          "n_points": list(range(3, 9 if q else 25))})
     for c in cases:
         ctx.axis("n_dim", len(c["fams"]))
         ctx.axis("structure", str(c["cond_on"]))
